@@ -5,7 +5,7 @@ Open Scope Z_scope.
 (* ------------------------------------------------------------------ store *)
 Lemma key_eqb_eq a b : key_eqb a b = true <-> a = b.
 Proof.
-  destruct a as [s p b0 i], b as [s' p' b' i']; unfold key_eqb; cbn [fst snd].
+  destruct a as [s p b0 i], b as [s' p' b' i']; unfold key_eqb; cbn.
   rewrite !andb_true_iff, !Z.eqb_eq, Bool.eqb_true_iff. split.
   - intros [[[-> ->] ->] ->]. reflexivity.
   - intros H; inversion H; auto.
@@ -18,7 +18,7 @@ Definition present (s : store) (k : key) : Prop := s_get s k <> None.
 
 Lemma s_get_del s k k' : s_get (s_del s k) k' = if key_eqb k' k then None else s_get s k'.
 Proof.
-  induction s as [|[k0 v] s IH]; cbn [fst snd].
+  induction s as [|[k0 v] s IH]; cbn.
   - now destruct (key_eqb k' k).
   - destruct (key_eqb k k0) eqn:E.
     + apply key_eqb_eq in E; subst k0. rewrite IH. now destruct (key_eqb k' k).
@@ -28,7 +28,7 @@ Proof.
 Qed.
 
 Lemma s_get_app s1 s2 k : s_get (s1 ++ s2) k = match s_get s1 k with Some v => Some v | None => s_get s2 k end.
-Proof. induction s1 as [|[k0 v] s1 IH]; cbn [fst snd]; [reflexivity|]. now destruct (key_eqb k k0). Qed.
+Proof. induction s1 as [|[k0 v] s1 IH]; cbn; [reflexivity|]. now destruct (key_eqb k k0). Qed.
 
 Lemma s_get_put s k v k' : s_get (s_put s k v) k' = if key_eqb k' k then Some v else s_get s k'.
 Proof.
@@ -74,7 +74,7 @@ Qed.
 Lemma inspect_all_same objs : forall w,
   w_objs (snd (inspect_all w objs)) = w_objs w /\ w_delfail (snd (inspect_all w objs)) = w_delfail w.
 Proof.
-  induction objs as [|[k sz] objs IH]; intros w; cbn [fst snd]; [auto|].
+  induction objs as [|[k sz] objs IH]; intros w; cbn [inspect_all fst snd]; [auto|].
   destruct (k_idx k); [apply IH|].
   pose proof (inspect_same w k sz) as H1. destruct (inspect w k sz) as [r w1]; cbn in H1.
   destruct r as [g|]; cbn [fst snd]; [|assumption].
@@ -116,7 +116,7 @@ Lemma copy_loop_inv s0 p lc T : forall segs w i copied n last ok w' copied' n' l
   copy_loop crc w p segs i lc T copied n last = (ok, w', copied', n', last') ->
   inv s0 w copied -> inv s0 w' copied' /\ w_delfail w' = w_delfail w.
 Proof.
-  induction segs as [|g segs IH]; intros w i copied n last ok w' copied' n' last' H Hi; cbn in H.
+  induction segs as [|g segs IH]; intros w i copied n last ok w' copied' n' last' H Hi; cbn [copy_loop] in H.
   - inversion H; subst; auto.
   - destruct (lc <? i)%nat; [inversion H; subst; auto|].
     pose proof (w_get_same w (seg_key 0 p (g_base g)) None) as [A1 A2].
@@ -147,7 +147,7 @@ Lemma copy_parts_inv s0 all T : forall parts w copied summ ok w' copied' summ',
   copy_parts crc w parts all T copied summ = (ok, w', copied', summ') ->
   inv s0 w copied -> inv s0 w' copied' /\ w_delfail w' = w_delfail w.
 Proof.
-  induction parts as [|p parts IH]; intros w copied summ ok w' copied' summ' H Hi; cbn in H.
+  induction parts as [|p parts IH]; intros w copied summ ok w' copied' summ' H Hi; cbn [copy_parts] in H.
   - inversion H; subst; auto.
   - destruct (copy_loop crc w p _ 0 _ T copied 0 (-1)) as [[[[ok1 w1] c1] n1] l1] eqn:E.
     apply (copy_loop_inv s0) in E; [|exact Hi]. destruct E as [E1 E2].
@@ -164,8 +164,8 @@ Proof.
   unfold w_del. pose proof (tick_objs w) as [H1 H2]. destruct (tick w) as [f w1]; cbn in H1, H2.
   destruct f; cbn [fst snd].
   - split; [discriminate|]. intros k'. now rewrite H1.
-  - split; [intros H; split; congruence|].
-    intros k'. unfold present. rewrite s_get_del, H1. destruct (key_eqb k' k); [congruence|auto].
+  - split; [intros H; split; [now rewrite <- H2|now rewrite H1]|].
+    intros k'. unfold present. cbn. rewrite s_get_del, H1. destruct (key_eqb k' k); [congruence|auto].
 Qed.
 
 Lemma rollback_spec : forall copied w,
@@ -202,16 +202,16 @@ Proof.
   intros s0 faults T parts w' H Hd k Hk Hp. unfold restore in H.
   set (w := mkW s0 faults false) in *.
   pose proof (w_list_same w 1) as [A1 A2]. destruct (w_list w 1) as [r0 w0]; cbn in A1, A2.
-  destruct r0 as [existing|]; [|inversion H; subst; rewrite A1 in Hp; exact Hp].
-  destruct (existsb _ existing); [inversion H; subst; rewrite A1 in Hp; exact Hp|].
+  destruct r0 as [existing|]; [|injection H as Hw; subst w'; rewrite A1 in Hp; exact Hp].
+  destruct (existsb _ existing); [injection H as Hw; subst w'; rewrite A1 in Hp; exact Hp|].
   pose proof (w_list_same w0 0) as [B1 B2]. destruct (w_list w0 0) as [r1 w1]; cbn in B1, B2.
-  destruct r1 as [objs|]; [|inversion H; subst; rewrite B1, A1 in Hp; exact Hp].
+  destruct r1 as [objs|]; [|injection H as Hw; subst w'; rewrite B1, A1 in Hp; exact Hp].
   pose proof (inspect_all_same objs w1) as [C1 C2]. destruct (inspect_all w1 objs) as [r2 w2]; cbn in C1, C2.
-  destruct r2 as [all|]; [|inversion H; subst; rewrite C1, B1, A1 in Hp; exact Hp].
+  destruct r2 as [all|]; [|injection H as Hw; subst w'; rewrite C1, B1, A1 in Hp; exact Hp].
   match type of H with context [copy_parts crc w2 ?ps ?sel T [] []] =>
     destruct (copy_parts crc w2 ps sel T [] []) as [[[ok w3] copied] summ] eqn:E end.
   apply (copy_parts_inv s0) in E.
-  - destruct E as [E1 E2]. destruct ok; [discriminate|]. inversion H; subst w'.
+  - destruct E as [E1 E2]. destruct ok; [discriminate|]. injection H as Hw; subst w'.
     apply rollback_spec in Hd as [_ Hd]. apply Hd in Hp as [Hp Hn]; [|assumption].
     destruct (E1 k Hk Hp); [assumption|contradiction].
   - intros k' Hk' Hp'. left. rewrite C1, B1, A1 in Hp'. exact Hp'.
